@@ -230,12 +230,14 @@ class _Recorder:
 
 
 class RecordingScorer(_Recorder, Scorer):
-    def __init__(self, ctx, score_of):
-        self.ctx, self.score_of = ctx, score_of
+    def __init__(self, ctx, score_of, reverse=False):
+        self.ctx, self.score_of, self.reverse = ctx, score_of, reverse
         self.calls, self.returned = [], []
 
     def score(self, plates, distance_matrix, samples, rng, progress_bar):
-        out = {k: self.score_of.get(int(k), NEG_INF) for k in plates}
+        # the Scorer contract fixes the keys of the answer, not their order: reverse=True answers back to front
+        keys = list(plates)[::-1] if self.reverse else list(plates)
+        out = {k: self.score_of.get(int(k), NEG_INF) for k in keys}
         self._record(plates, out)
         return out
 
@@ -471,6 +473,20 @@ def cover_once(ctx, batch, n_chunks, score_of, col, kind="cover", count=True):
     bad, facts = judge_cover(ctx, batch, n_chunks, scorer.calls, scorer.returned, holders)
     for sig, msg in bad:
         col.violation(sig, f"{describe(ctx)}, n_chunks={n_chunks}: {msg}", case)
+    if any(len(c) > 1 for c in scorer.calls):
+        # same execution with a scorer that answers in the opposite order
+        rscorer = RecordingScorer(ctx, score_of, reverse=True)
+        rholders, rerr = run_chunks(ctx, batch, n_chunks, rscorer, np.random.default_rng(0), col)
+        if count:
+            col.evaluations += 1
+            col.count("answer-order-reversed")
+        if rerr is not None:
+            col.violation("C06|score_chunk|raised", f"score_chunk(n_chunks={n_chunks}, chunk_index={rerr[0]}, batch={batch}) raised {short_exc(rerr[1])} "
+                          f"on {describe(ctx)} when the scorer answers in reversed order", case)
+        else:
+            rbad, _ = judge_cover(ctx, batch, n_chunks, rscorer.calls, rscorer.returned, rholders)
+            for sig, msg in rbad:
+                col.violation(sig, f"{describe(ctx)}, n_chunks={n_chunks}, scorer answering in reversed order: {msg}", case)
     return holders, facts
 
 
